@@ -11,6 +11,8 @@ require (
 	github.com/cosmos/cosmos-db v1.0.2
 	github.com/cosmos/cosmos-sdk v0.50.10
 	github.com/google/btree v1.1.2
+	mods.irisnet.org/modules/mt v0.0.0-20241202072418-ae2ffd0c842e
+	mods.irisnet.org/modules/nft v0.0.0-20241202072418-ae2ffd0c842e
 )
 
 require (
@@ -181,8 +183,6 @@ require (
 	gopkg.in/yaml.v3 v3.0.1 // indirect
 	gotest.tools/v3 v3.5.1 // indirect
 	mods.irisnet.org/api v0.0.0-20241118093307-345265846e1d // indirect
-	mods.irisnet.org/modules/mt v0.0.0-20241202072418-ae2ffd0c842e // indirect
-	mods.irisnet.org/modules/nft v0.0.0-20241202072418-ae2ffd0c842e // indirect
 	nhooyr.io/websocket v1.8.6 // indirect
 	pgregory.net/rapid v1.1.0 // indirect
 	sigs.k8s.io/yaml v1.4.0 // indirect
